@@ -58,11 +58,14 @@ package boltz
 //@   pure
 //@   ensures[read-only] dbSame()
 //@   censures[stable-name-of-the-nested-bucket] bucket != nil && old(bucket.Err) == nil && result != nil ==> result.ErrorHolderImpl != nil && result.Err == nil && result.Bucket != nil && ref(result.Bucket) == pathUnder(old(bucket.Bucket), arr(path), len(path))
+//@   censures[found-iff-the-path-exists] bucket != nil && old(bucket.Err) == nil ==> (result != nil) == pathExists(old(bucket.Bucket), arr(path), len(path), bktHas, bktSub)
 //@   censures[a-missing-bucket-has-no-keys] bucket != nil && old(bucket.Err) == nil && result == nil ==> forallStr(k, !sel(bktHas[pathUnder(old(bucket.Bucket), arr(path), len(path))], k))
 //@   invariant 1: dbSame()
 // the GetOrCreate family only ever creates buckets (assumed: these are not verified here)
 // pathUnder(b, path, n): the bucket reached from b by the path (a stable name; a bucket that does not exist has no keys)
 //@ spec pathUnder(b Int, path (Array Int Str), n Int) Int
+// pathExists(b, path, n, has, sub): every step of the path below b is a nested bucket in database state (has, sub)
+//@ spec pathExists(b Int, path (Array Int Str), n Int, has (Array Int (Array Str Bool)), sub (Array Int (Array Str Int))) Bool
 // plainSame(): in every bucket the plain keys (entries that are not nested buckets) are the same as on entry
 //@ define plainSame() = forall(b, forallStr(k, (sel(bktHas[b], k) && sel(bktSub[b], k) == 0) == (old(sel(bktHas[b], k)) && old(sel(bktSub[b], k)) == 0)))
 //@ define bucketsKept() = forall(b, forallStr(k, old(sel(bktHas[b], k)) && old(sel(bktSub[b], k)) != 0 ==> sel(bktHas[b], k) && sel(bktSub[b], k) == old(sel(bktSub[b], k))))
@@ -242,6 +245,7 @@ package boltz
 //@   ensures[no-entities-bucket-no-entity] sEnts(store, tx) == 0 ==> result == nil
 //@   ensures[a-root-store's-entity-is-its-bucket] store.parent == nil && sEnts(store, tx) != 0 ==> (result != nil) == sEntHas(store, tx, str(id)) && (result != nil ==> result.Bucket == sel(bktSub[sEnts(store, tx)], str(id)) && result.ErrorHolderImpl != nil && result.Err == nil)
 //@   ensures[child-data-lives-under-the-parent's-entity] store.parent != nil && result != nil ==> sEnts(store, tx) != 0 && sEntHas(store, tx, str(id)) && ref(result.Bucket) == pathUnder(sel(bktSub[sEnts(store, tx)], str(id)), arr(store.entityPath), len(store.entityPath))
+//@   ensures[child-data-exists-iff-its-path-exists] store.parent != nil && sEnts(store, tx) != 0 && sEntHas(store, tx, str(id)) ==> (result != nil) == pathExists(sel(bktSub[sEnts(store, tx)], str(id)), arr(store.entityPath), len(store.entityPath), bktHas, bktSub)
 //@   ensures[no-parent-entity-no-child-data] store.parent != nil && sEnts(store, tx) != 0 && !sEntHas(store, tx, str(id)) ==> result == nil
 //@ func (*BaseStore).IsEntityPresent
 //@   props C09 C15
@@ -249,6 +253,7 @@ package boltz
 //@   modifies *
 //@   ensures[read-only] dbSame()
 //@   ensures[a-root-store's-entity-is-its-bucket] store.parent == nil ==> result == (sEnts(store, tx) != 0 && sEntHas(store, tx, id))
+//@   ensures[present-in-a-child-store-iff-its-data-path-exists] store.parent != nil ==> result == (sEnts(store, tx) != 0 && sEntHas(store, tx, id) && pathExists(sel(bktSub[sEnts(store, tx)], id), arr(store.entityPath), len(store.entityPath), bktHas, bktSub))
 //@   ensures[present-in-the-child-store-means-present-in-the-parent] store.parent != nil && result ==> sEnts(store, tx) != 0 && sEntHas(store, tx, id)
 // assumed: positioning a filtered id cursor evaluates the filter, which only reads
 //@ func newFilteredCursor
